@@ -412,6 +412,15 @@ def gen_run(g, k, n=None, kdt=None, unit=None, decimal=False, **extra):
         op['T'] = [v * nn * si.factor('TimeInterval', u) /
                    si.factor('TimeInterval', tu), tu]
     op.update(extra)
+    if g.chance(0.12) and not decimal:
+        # the step and/or the duration were built in another unit and
+        # converted in place before the call
+        if g.chance(0.6):
+            op['dt'] = [op['dt'][0], op['dt'][1],
+                        r.choice(si.units_of('TimeInterval'))]
+        if 'T' in op and g.chance(0.7):
+            op['T'] = [op['T'][0], op['T'][1],
+                       r.choice(si.units_of('TimeInterval'))]
     return op
 
 
@@ -462,6 +471,12 @@ def gen_dyn(g):
             # the user changes the duty cycle by hand between two runs
             sched.append({'op': 'set_pwm',
                           'value': r.choice([0, 1, -1, round(r.uniform(-1, 1), 3)])})
+        if g.chance(0.1):
+            # ... or tries to, with a value that is rejected (F-BADPARAM):
+            # nothing may change
+            sched.append({'op': 'set_pwm', 'invalid': True,
+                          'value': r.choice([1.5, -1.5, 2, -7, 1.0000001,
+                                             -1.0000001])})
         if g.chance(0.15) and sched[-1]['op'] == 'run':
             sched.append(convert_live_op(g, chain))
         if g.chance(0.1) and not g.cfg.get('differential'):
@@ -680,6 +695,9 @@ def gen_lock(g):
         if g.chance(0.2):
             sched.append({'op': 'set_pwm',
                           'value': r.choice([0, 0, 1, -1, round(r.uniform(-1, 1), 3)])})
+        if g.chance(0.1):
+            sched.append({'op': 'set_pwm', 'invalid': True,
+                          'value': r.choice([1.5, -1.5, 2, -7])})
         if g.chance(0.15) and sched[-1]['op'] == 'run':
             sched.append(convert_live_op(g, chain))
         if c < 0.7:
@@ -688,6 +706,29 @@ def gen_lock(g):
             sched.append({'op': 'reset', 'reapply': g.chance(0.7)})
             sched.append(gen_run(g, k, kdt=g.logu(0.02, 1.0),
                                  solver=r.choice(['same', 'new'])))
+    worms = [d for d in scn['decls'] if d['op'] == 'worm' and
+             scn['elements'][d['m']]['kind'] == 'WormGear']
+    if worms and g.chance(0.15):
+        # after assembly (and a run) the worm mating is declared again with
+        # a friction on either side of the self-locking threshold, then
+        # reset + run: the ASSEMBLED powertrain keeps its flag (C20) and its
+        # behaviour (C13); only the efficiency follows the new declaration
+        d = dict(r.choice(worms))
+        alpha = si.q_si('Angle', scn['elements'][d['m']]['alpha'])
+        beta = si.q_si('Angle', scn['elements'][d['m']]['beta'])
+        thr, fmax = worm_f_range(alpha, beta, True)
+        if g.chance(0.5) and thr * 1.02 < fmax * 0.98:
+            d['f'] = float(r.uniform(thr * 1.02, fmax * 0.98))
+        else:
+            d['f'] = float(r.uniform(0.0, min(thr, fmax) * 0.98))
+        sched.append({'op': 'redeclare', 'decl': d})
+        sched.append({'op': 'probe_immutable'})
+        if g.chance(0.5):
+            sched.append(gen_run(g, k, kdt=g.logu(0.02, 1.0)))
+        sched.append({'op': 'reset', 'reapply': g.chance(0.7)})
+        sched.append({'op': 'probe_immutable'})
+        sched.append(gen_run(g, k, kdt=g.logu(0.02, 1.0),
+                             solver=r.choice(['same', 'new'])))
     scn['schedule'] = sched
     add_control(g, scn, model, chain, p=0.85,
                 kinds=r.choice([['Scripted'], ['Scripted'],
@@ -744,6 +785,11 @@ def gen_grid(g):
             op['T'] = [float(T_dec), tu]
         if int(dt) == dt and g.chance(0.5):
             op['dt'][0] = int(dt)
+        if g.chance(0.15):
+            # built in another unit, converted in place before the call
+            key = r.choice(['dt', 'T']) if 'T' in op else 'dt'
+            op[key] = [op[key][0], op[key][1],
+                       r.choice(si.units_of('TimeInterval'))]
         runs.append(op)
     dt_max = max(si.q_si('TimeInterval', o['dt']) for o in runs)
     # a drive slow enough for the largest step (k*dt <= ~0.2)
@@ -1042,7 +1088,8 @@ def gen_query(g, profile='query'):
         else:
             at = [r.random(), round(r.uniform(0.02, 0.98), 3),
                   r.choice(si.units_of('Time'))]
-        op = {'op': 'snapshot', 'at': at, 'units': out_units(g)}
+        op = {'op': 'snapshot', 'at': at, 'units': out_units(g),
+              'as_interval': g.chance(0.25)}
         c = r.random()
         if g.cfg.get('exhaustive_subsets') and g.chance(0.6):
             # sizes 1 and 2 enumerated across the campaign: the seed picks
@@ -1303,6 +1350,12 @@ def gen_motor(g):
             pt['relabel'] = r.choice(si.units_of('Torque'))
             pt['inplace'] = g.chance(0.5)
         pts.append(pt)
+    if g.chance(0.3):
+        scn['schedule'].append({'op': 'set_pwm', 'value': round(r.uniform(-1, 1), 3)})
+        scn['schedule'].append({'op': 'set_pwm', 'invalid': True,
+                                'value': r.choice([1.5, -1.5, 3, -3])})
+        scn['schedule'].append(gen_run(g, k, n=r.randint(3, 15),
+                                       kdt=g.logu(0.02, 0.8), control=False))
     scn['schedule'].append({'op': 'motor_probe', 'points': pts})
     return scn
 
@@ -1510,6 +1563,18 @@ def gen_decl(g):
             model.apply(d)
             if d['m'] == tail:
                 tail = d['s']
+            if d['op'] == 'worm' and g.chance(0.5):
+                # the same pair declared again with another friction (zero,
+                # either side of the self-locking threshold): the flag and
+                # the efficiency must follow the LAST declaration
+                thr = math.cos(esi[d['m']]['alpha']) * math.tan(esi[d['m']]['beta'])
+                for f2 in r.sample([0, 0.0, thr * 0.5, thr * 0.98, thr * 1.02,
+                                    min(1.0, thr * 2), 0.9, 1], r.choice([1, 2])):
+                    d2 = dict(d, f=float(f2) if not isinstance(f2, int) else f2)
+                    d2.pop('fault', None)
+                    if model.judge(d2)[0] == 'accept':
+                        decls.append(d2)
+                        model.apply(d2)
     scn = {'seed': g.seed, 'profile': 'decl', 'elements': els, 'decls': decls,
            'motor': 0, 'track_relations': True, 'assemble': True,
            'wall': 1.0, 'schedule': []}
@@ -1704,6 +1769,8 @@ def gen_quant(g):
         if c < 0.12:
             return 0.0
         m = g.logu(1e-30, 1e30) if g.chance(0.25) else g.logu(1e-3, 1e3)
+        if g.chance(0.04):
+            m = g.logu(5e-324, 1e-300)     # down to the subnormal range
         if g.chance(0.3):
             m = float(r.randint(1, 9))
         if g.chance(0.35):
